@@ -692,3 +692,51 @@ def d9_values_mut(f):
         f._lost('D9 values_mut loop')
     f.log.rule('D9', f, '%d values_mut loop(s) -> key iteration' % n)
     return f
+
+
+def d10_question_in_for(f, ordinal, ret_ty):
+    """D10 (statement form): `E?;` directly inside the body of for-loop #ordinal ->
+    `if let Err(verif_e) = E { verif_ret = Some(Err(verif_e)); break; }` + flag declared before the loop and
+    returned after it.  Needed because Verus loses the borrow resolution of the hidden iterator at `?`/`return`."""
+    ls = f.loops()
+    if ordinal >= len(ls):
+        f._lost('D10: loop #%d not found' % ordinal)
+    s, bo, kw = ls[ordinal]
+    t = f.text
+    mask = code_mask(t)
+    bc = match_brace(t, mask, bo)
+    depth = 0
+    stmt_start = bo + 1
+    k = bo + 1
+    edits = []
+    while k < bc:
+        if mask[k]:
+            c = t[k]
+            if c in '([{':
+                depth += 1
+            elif c in ')]}':
+                depth -= 1
+                if depth == 0 and c == '}' and not re.match(r'\s*(\)|\?|\.|else|;)', t[k + 1:k + 12]):
+                    stmt_start = k + 1
+            elif c == ';' and depth == 0:
+                if t[k - 1] == '?':
+                    stmt = t[stmt_start:k - 1]
+                    if re.match(r'\s*let\b', stmt):
+                        f._lost('D10: `let x = E?;` form not supported')
+                    edits.append((stmt_start, k + 1, stmt))
+                stmt_start = k + 1
+        k += 1
+    if not edits:
+        f._lost('D10: no `E?;` statement in loop #%d' % ordinal)
+    ind = re.search(r'[ \t]*$', t[:s]).group(0)
+    out = t
+    for (a, b, stmt) in reversed(edits):
+        lead = re.match(r'\s*', stmt).group(0)
+        out = out[:a] + lead + 'if let Err(verif_e) = ' + stmt.strip() + ' { verif_ret = Some(Err(verif_e)); break; }' + out[b:]
+    delta = len(out) - len(t)
+    bc2 = bc + delta
+    out = out[:bc2 + 1] + '\n' + ind + 'if let Some(verif_r) = verif_ret { return verif_r; }' + out[bc2 + 1:]
+    out = out[:s] + 'let mut verif_ret: Option<%s> = None;\n%s' % (ret_ty, ind) + out[s:]
+    f.text = out
+    f.log.rule('D10', f, '%d `E?;` statement(s) in for-loop #%d -> flag + break' % (len(edits), ordinal))
+    return f
